@@ -290,6 +290,9 @@ Section Proj.
   Lemma is_some_iff {A} (o:option A) : is_some o = true <-> o <> None.
   Proof. destruct o; simpl; split; congruence. Qed.
 
+  Lemma iff_is_some {A} (r:bool) (o:option A) : (r = true <-> o <> None) -> r = is_some o.
+  Proof. destruct r, o; simpl; intros [H1 H2]; auto; [exfalso; apply (H1 eq_refl); auto|apply H2; discriminate]. Qed.
+
   Lemma txn_run_proj i : i_kind i = k -> consistent i = true ->
     (o_raised (txn_run i) = true <-> fail_index i <> None) /\ pi (o_db (txn_run i)) = expected i.
   Proof.
@@ -309,9 +312,7 @@ Section Proj.
       pose proof (steps_null c (i_steps i) (fun h => Hb h true) Hki (i_fail i) (prelude s1) P3) as S.
       destruct (run_steps k c (i_steps i) (i_fail i) (prelude s1)) as [s3 r]. destruct S as (S1 & S2 & S3 & S4 & S5 & S6).
       simpl. split; [exact S1|].
-      assert (Er : r = is_some (fidx (i_steps i) (i_fail i))).
-      { destruct r eqn:Hr, (fidx (i_steps i) (i_fail i)); simpl; auto; [apply S1 in Hr; contradiction Hr; auto|].
-        destruct S1 as [_ S1]. symmetry. apply S1. discriminate. }
+      assert (Er : r = is_some (fidx (i_steps i) (i_fail i))) by (apply iff_is_some; exact S1).
       rewrite <- Er. destruct r; simpl.
       + unfold pC in *. rewrite S2, P1, A2. reflexivity.
       + unfold pC, pV in *. rewrite (S3 eq_refl), P2, A1. reflexivity.
@@ -319,6 +320,7 @@ Section Proj.
       + (* env.py's begin_transaction() opens the one transaction *)
         simpl in Hc. assert (Hki : k <> ImplicitCommitDDL). { intros E. rewrite E in Hc. simpl in Hc. discriminate. }
         apply andb_true_iff in Hone as [Ht Hp]. apply negb_true_iff in Hp. rewrite Ht, Hp.
+        change (s_sa s0) with false.
         set (c := mkMcfg true false false false).
         assert (Hb : forall h, begin_transaction c h true = BtNull) by reflexivity.
         unfold bt_enter. change (begin_transaction c (s_al s0) false) with BtProxy. cbv iota.
@@ -331,14 +333,13 @@ Section Proj.
         pose proof (steps_null c (i_steps i) Hb Hki (i_fail i) (prelude s1) P3) as S.
         destruct (run_steps k c (i_steps i) (i_fail i) (prelude s1)) as [s3 r]. destruct S as (S1 & S2 & S3 & S4 & S5 & S6).
         simpl. split; [exact S1|].
-        assert (Er : r = is_some (fidx (i_steps i) (i_fail i))).
-        { destruct r eqn:Hr, (fidx (i_steps i) (i_fail i)); simpl; auto; [apply S1 in Hr; contradiction Hr; auto|].
-          destruct S1 as [_ S1]. symmetry. apply S1. discriminate. }
+        assert (Er : r = is_some (fidx (i_steps i) (i_fail i))) by (apply iff_is_some; exact S1).
         rewrite <- Er. unfold bt_exit. replace (s_al s3) with true by (rewrite S6, P6; reflexivity).
         destruct r; simpl.
         * unfold pC in *. rewrite S2, P1. simpl. exact (f_equal pi A2).
-        * unfold pC, pV in *. rewrite (S3 eq_refl), P2. simpl. rewrite A1. reflexivity.
+        * unfold pC, pV in *. rewrite (S3 eq_refl), P2. simpl in A1 |- *. rewrite A1. reflexivity.
       + (* every migration in its own transaction *)
+        change (s_sa s0) with false.
         set (c := mkMcfg (i_tddl i) (i_per_mig i) false false).
         assert (Hb0 : begin_transaction c false false = BtNull).
         { unfold c, begin_transaction. simpl. destruct (i_tddl i), (i_per_mig i); simpl in *; auto; discriminate. }
@@ -356,3 +357,150 @@ Section Proj.
           rewrite P2. reflexivity.
   Qed.
 End Proj.
+
+(* ------------------------------------------------------------------ instance 1: the version rows, every behaviour *)
+Definition f_rows (a:act) (x:list N) : list N := match a with AVop v => apply_vop v x | _ => x end.
+Lemma rows_Hpi a d : vrows (apply_act a d) = f_rows a (vrows d).
+Proof. destruct a; reflexivity. Qed.
+Lemma rows_Hddl k : k <> TxDDL -> forall x, (forall e, f_rows (AEff e) x = x) /\ f_rows AVt x = x.
+Proof. intros _ x. split; reflexivity. Qed.
+
+Lemma rows_body body x : body_f _ f_rows body x = x.
+Proof. unfold body_f. induction body; simpl; auto. Qed.
+Lemma rows_step sp x : step_f _ f_rows sp x = ver_rows sp x.
+Proof. unfold step_f. rewrite rows_body. reflexivity. Qed.
+Lemma rows_steps steps : forall x, steps_f _ f_rows steps x = rows_after steps x.
+Proof. unfold steps_f, rows_after. induction steps as [|sp steps IH]; intros x; simpl; auto. rewrite rows_step. apply IH. Qed.
+
+Lemma fidx_lt steps : forall fail j, fidx steps fail = Some j -> j < length steps.
+Proof. induction steps as [|sp steps IH]; intros fail j; simpl.
+  - destruct fail as [[[|n] p]|]; discriminate.
+  - destruct fail as [[[|n] p]|]; try discriminate.
+    + destruct (valid_fpos sp p); [|discriminate]. intros [= <-]. lia.
+    + destruct (fidx steps (Some (n, p))) eqn:E; simpl; [|discriminate]. intros [= <-]. apply IH in E. lia. Qed.
+
+Lemma rows_thm i : consistent i = true ->
+  (o_raised (txn_run i) = true <-> fail_index i <> None) /\
+  vrows (o_db (txn_run i)) = rows_after (firstn (committed_count i) (i_steps i)) (vrows (i_db0 i)).
+Proof.
+  intros Hc. destruct (txn_run_proj _ vrows f_rows (i_kind i) rows_Hpi (rows_Hddl _) i eq_refl Hc) as [H1 H2].
+  split; auto. rewrite H2. unfold expected, committed_count. simpl.
+  destruct (one_txn i).
+  - destruct (fail_index i); simpl; auto. rewrite firstn_all, rows_steps. reflexivity.
+  - destruct (fail_index i) as [[|j]|]; simpl; auto.
+    + rewrite rows_steps. reflexivity.
+    + destruct (i_steps i) as [|sp steps]; simpl; auto. rewrite firstn_all. apply (rows_steps (sp :: steps)).
+Qed.
+
+(* ------------------------------------------------------------------ instance 2: the whole state, real transactional DDL *)
+Lemma tx_Hpi a d : id (apply_act a d) = apply_act a (id d). Proof. reflexivity. Qed.
+Lemma tx_Hddl : TxDDL <> TxDDL -> forall x:dbstate, (forall e, apply_act (AEff e) x = x) /\ apply_act AVt x = x.
+Proof. intros H; contradiction H; reflexivity. Qed.
+
+Lemma tx_steps steps x : steps_f _ apply_act steps x = state_after steps x.
+Proof. reflexivity. Qed.
+
+Lemma tx_thm i : i_kind i = TxDDL ->
+  o_db (txn_run i) =
+    if one_txn i
+    then (if is_some (fail_index i) then i_db0 i else state_after (i_steps i) (with_version_table (i_db0 i)))
+    else match committed_count i with
+         | O => i_db0 i
+         | S _ => state_after (firstn (committed_count i) (i_steps i)) (with_version_table (i_db0 i))
+         end.
+Proof.
+  intros Hk. assert (Hc : consistent i = true).
+  { unfold consistent. rewrite Hk. simpl. rewrite andb_false_r. reflexivity. }
+  destruct (txn_run_proj _ id apply_act TxDDL tx_Hpi tx_Hddl i Hk Hc) as [_ H]. exact H.
+Qed.
+
+(* projections of state_after *)
+Lemma effs_fold_vops vs d : effs (fold_left (fun d v => apply_act (AVop v) d) vs d) = effs d.
+Proof. revert d; induction vs; intros; simpl; auto. rewrite IHvs. reflexivity. Qed.
+Lemma vt_fold_vops vs d : vt (fold_left (fun d v => apply_act (AVop v) d) vs d) = vt d.
+Proof. revert d; induction vs; intros; simpl; auto. rewrite IHvs. reflexivity. Qed.
+Lemma effs_fold_body body d :
+  effs (fold_left (fun d x => apply_act (AEff (stmt_eff x)) d) body d) = fold_left (fun l x => apply_eff (stmt_eff x) l) body (effs d).
+Proof. revert d; induction body; intros; simpl; auto. rewrite IHbody. reflexivity. Qed.
+Lemma vt_fold_body body d : vt (fold_left (fun d x => apply_act (AEff (stmt_eff x)) d) body d) = vt d.
+Proof. revert d; induction body; intros; simpl; auto. rewrite IHbody. reflexivity. Qed.
+Lemma effs_state_after steps : forall d, effs (state_after steps d) = effs_after steps (effs d).
+Proof. unfold state_after, effs_after. induction steps as [|sp steps IH]; intros d; simpl; auto.
+  rewrite IH. unfold apply_step, body_effs. rewrite effs_fold_vops, effs_fold_body. reflexivity. Qed.
+Lemma vt_state_after steps : forall d, vt (state_after steps d) = vt d.
+Proof. unfold state_after. induction steps as [|sp steps IH]; intros d; simpl; auto.
+  rewrite IH. unfold apply_step. rewrite vt_fold_vops, vt_fold_body. reflexivity. Qed.
+
+(* ------------------------------------------------------------------ main theorem and decider soundness *)
+Theorem C04_main_thm i : consistent i = true -> C04_holds i (txn_run i).
+Proof.
+  intros Hc. destruct (rows_thm i Hc) as [R1 R2]. unfold C04_holds. split; [exact R1|]. split.
+  - intros x. rewrite R2. tauto.
+  - intros Hk. rewrite (tx_thm i Hk). unfold committed_count.
+    destruct (one_txn i).
+    + destruct (fail_index i) as [j|]; simpl.
+      * split; [tauto|]. intros _. destruct (vt (i_db0 i)); reflexivity.
+      * rewrite firstn_all, effs_state_after, vt_state_after. simpl. split; [tauto|].
+        intros Hn. destruct (i_steps i); [contradiction Hn; auto|]. simpl. destruct (vt (i_db0 i)); reflexivity.
+    + destruct (fail_index i) as [[|j]|]; simpl.
+      * split; [tauto|]. intros _. destruct (vt (i_db0 i)); reflexivity.
+      * rewrite effs_state_after, vt_state_after. simpl. split; [tauto|]. intros _. destruct (vt (i_db0 i)); reflexivity.
+      * rewrite !firstn_all. destruct (length (i_steps i)) eqn:El.
+        -- destruct (i_steps i); [|discriminate]. simpl. split; [tauto|]. intros Hn. contradiction Hn; auto.
+        -- rewrite effs_state_after, vt_state_after. simpl. split; [tauto|].
+           intros _. destruct (vt (i_db0 i)); reflexivity.
+Qed.
+
+Lemma kind_eqb_eq a b : kind_eqb a b = true <-> a = b.
+Proof. destruct a, b; simpl; split; congruence. Qed.
+
+Theorem check_C04_sound i o : check_C04 i o = true -> C04_holds i o.
+Proof.
+  unfold check_C04, C04_holds. intros H.
+  apply andb_true_iff in H as [H H3]. apply andb_true_iff in H as [H1 H2].
+  split; [|split].
+  - apply Bool.eqb_prop in H1. rewrite H1. apply is_some_iff.
+  - apply seteqN_spec; auto.
+  - intros Hk. rewrite Hk in H3. simpl in H3. apply andb_true_iff in H3 as [H3 H4]. split.
+    + apply seteqN_spec; auto.
+    + intros Hn. destruct (i_steps i); [contradiction Hn; auto|]. apply Bool.eqb_prop in H4. exact H4.
+Qed.
+
+(* ------------------------------------------------------------------ the clauses of the property, one by one *)
+Lemma consistent_tx i : i_kind i = TxDDL -> consistent i = true.
+Proof. intros Hk. unfold consistent. rewrite Hk. simpl. rewrite andb_false_r. reflexivity. Qed.
+Lemma consistent_per_step i : one_txn i = false -> consistent i = true.
+Proof. intros H. unfold consistent. rewrite H. reflexivity. Qed.
+
+Lemma version_rows_thm i : consistent i = true ->
+  vrows (o_db (txn_run i)) = rows_after (firstn (committed_count i) (i_steps i)) (vrows (i_db0 i)).
+Proof. intros Hc. apply (rows_thm i Hc). Qed.
+
+Lemma failed_not_recorded_thm i j : consistent i = true -> fail_index i = Some j ->
+  o_raised (txn_run i) = true /\
+  exists c, c <= j /\ j < length (i_steps i) /\
+    vrows (o_db (txn_run i)) = rows_after (firstn c (i_steps i)) (vrows (i_db0 i)).
+Proof. intros Hc Hf. destruct (rows_thm i Hc) as [R1 R2]. split. { apply R1. rewrite Hf. discriminate. }
+  exists (committed_count i). unfold committed_count in *. rewrite Hf in *. unfold fail_index in Hf. apply fidx_lt in Hf.
+  destruct (one_txn i); repeat split; auto; lia. Qed.
+
+Lemma all_or_nothing_thm i : i_kind i = TxDDL -> one_txn i = true -> fail_index i <> None ->
+  o_db (txn_run i) = i_db0 i.
+Proof. intros Hk H1 Hf. rewrite (tx_thm i Hk), H1. destruct (fail_index i); [reflexivity|contradiction Hf; auto]. Qed.
+
+Lemma per_migration_thm i j : i_kind i = TxDDL -> one_txn i = false -> fail_index i = Some j ->
+  o_db (txn_run i) = match j with
+                     | O => i_db0 i
+                     | S _ => state_after (firstn j (i_steps i)) (with_version_table (i_db0 i))
+                     end.
+Proof. intros Hk H1 Hf. rewrite (tx_thm i Hk), H1. unfold committed_count. rewrite Hf, H1. reflexivity. Qed.
+
+Lemma nontransactional_thm i j : one_txn i = false -> fail_index i = Some j ->
+  vrows (o_db (txn_run i)) = rows_after (firstn j (i_steps i)) (vrows (i_db0 i)).
+Proof. intros H1 Hf. rewrite (version_rows_thm i (consistent_per_step i H1)). unfold committed_count. rewrite Hf, H1. reflexivity. Qed.
+
+Lemma success_thm i : consistent i = true -> fail_index i = None ->
+  o_raised (txn_run i) = false /\ vrows (o_db (txn_run i)) = rows_after (i_steps i) (vrows (i_db0 i)).
+Proof. intros Hc Hf. destruct (rows_thm i Hc) as [R1 R2]. split.
+  - destruct (o_raised (txn_run i)); auto. exfalso. apply (proj1 R1 eq_refl). exact Hf.
+  - rewrite R2. unfold committed_count. rewrite Hf, firstn_all. reflexivity. Qed.
